@@ -156,8 +156,102 @@ pub fn verdict_props(op: &'static str, failed_ever: bool) -> Vec<&'static str> {
     p
 }
 
+/// The shard array that every Engine primitive receives (`ShardsRefMut`, a public type that engines written outside the
+/// crate use as well) against a flat model: ranges of whole shards are cleared whatever the shard size, sub-arrays
+/// and strided views alias exactly the shards they name.
+fn carrier_probe(ch: &mut Chooser, ctx: &mut Ctx) -> bool {
+    use reed_solomon_simd::engine::ShardsRefMut;
+    use std::ops::Bound;
+    let count = 1 + ch.pick_usize("carrier.count", 9);
+    let len64 = 1 + ch.pick_usize("carrier.len64", 3);
+    let mut p = simcore::prng::Prng::new(ch.seed64("carrier.seed"));
+    let mut data = vec![[0u8; 64]; count * len64 + 1];
+    for c in &mut data {
+        p.fill(c);
+        c[0] |= 1; // no block is all zero before it is cleared
+    }
+    let model = data.clone();
+    let a = p.below(count as u64 + 1) as usize;
+    let b = a + p.below((count - a) as u64 + 1) as usize; // a <= b <= count
+    let kind = p.below(7);
+    let mid = p.below(count as u64 + 1) as usize;
+    let res = ctx.guarded(false, || -> Result<(), String> {
+        let mut v = ShardsRefMut::new(count, len64, &mut data);
+        if v.len() != count || v.is_empty() {
+            return Err(format!("len() = {}, is_empty() = {} for {count} shards", v.len(), v.is_empty()));
+        }
+        for i in 0..count {
+            if v[i] != model[i * len64..(i + 1) * len64] {
+                return Err(format!("index {i} of a {count} x {len64}-block array is not blocks {}..{}", i * len64, (i + 1) * len64));
+            }
+        }
+        if count >= 2 {
+            let dist = 1 + p.below((count - 1) as u64) as usize;
+            let pos = p.below((count - dist) as u64) as usize;
+            let (x, y) = v.dist2_mut(pos, dist);
+            if x != &model[pos * len64..(pos + 1) * len64] || y != &model[(pos + dist) * len64..(pos + dist + 1) * len64] {
+                return Err(format!("dist2_mut({pos}, {dist}) does not return shards {pos} and {}", pos + dist));
+            }
+        }
+        if count >= 4 {
+            let dist = 1 + p.below(((count - 1) / 3) as u64) as usize;
+            let pos = p.below((count - 3 * dist) as u64) as usize;
+            let (w, x, y, z) = v.dist4_mut(pos, dist);
+            for (n, s) in [w, x, y, z].into_iter().enumerate() {
+                let at = pos + n * dist;
+                if s != &model[at * len64..(at + 1) * len64] {
+                    return Err(format!("dist4_mut({pos}, {dist}): view {n} is not shard {at}"));
+                }
+            }
+        }
+        {
+            let (lo, hi) = v.split_at_mut(mid);
+            if lo.len() != mid || hi.len() != count - mid {
+                return Err(format!("split_at_mut({mid}) of {count} shards gives {} + {}", lo.len(), hi.len()));
+            }
+            for i in 0..count {
+                let got = if i < mid { &lo[i] } else { &hi[i - mid] };
+                if got != &model[i * len64..(i + 1) * len64] {
+                    return Err(format!("split_at_mut({mid}): shard {i} is not where it was"));
+                }
+            }
+        }
+        // which shards the range names
+        let (from, to, text) = match kind {
+            0 => { v.zero(..); (0, count, "..".to_string()) }
+            1 => { v.zero(a..); (a, count, format!("{a}..")) }
+            2 => { v.zero(..b); (0, b, format!("..{b}")) }
+            3 => { v.zero(a..b); (a, b, format!("{a}..{b}")) }
+            4 if b > a => { v.zero(a..=b - 1); (a, b, format!("{a}..={}", b - 1)) }
+            5 if b > 0 => { v.zero(..=b - 1); (0, b, format!("..={}", b - 1)) }
+            6 if a > 0 => { v.zero((Bound::Excluded(a - 1), Bound::Excluded(b))); (a, b, format!("({}, {b}) exclusive bounds", a - 1)) }
+            _ => { v.zero(a..b); (a, b, format!("{a}..{b}")) }
+        };
+        drop(v);
+        for (n, c) in data.iter().enumerate() {
+            let inside = n >= from * len64 && n < to * len64;
+            if inside && *c != [0u8; 64] {
+                return Err(format!("zero({text}) on {count} shards of {len64} blocks leaves block {} of shard {} untouched", n % len64, n / len64));
+            }
+            if !inside && *c != model[n] {
+                return Err(format!("zero({text}) on {count} shards of {len64} blocks changes block {n} outside the range"));
+            }
+        }
+        Ok(())
+    });
+    ctx.count("probe.shard_array_contract");
+    match res {
+        Ok(Ok(())) => false,
+        Ok(Err(why)) => ctx.viol(&["C04"], "shard-array-contract", format!("carrier/{}", why.split('(').next().unwrap_or("")), format!("ShardsRefMut: {why}"), false),
+        Err(msg) => ctx.viol(&["C04", "C06"], "no-panic", format!("panic/carrier/{}", panic_sig(&msg)), format!("ShardsRefMut ({count} shards of {len64} blocks) panicked on valid arguments: {msg}"), false),
+    }
+}
+
 /// Static probes of `supports` / `validate` / constructors against R4 (C08, C06).
 fn static_probe(ch: &mut Chooser, ctx: &mut Ctx, kind: Kind, decoder: bool) -> bool {
+    if ch.chance("probe.carrier", 1, 3) && carrier_probe(ch, ctx) {
+        return true;
+    }
     let fam = kind.layer.family();
     let corners = envelope::corners();
     // a seeded slice of the corner list x {-1,0,+1}^2, plus weird values
@@ -1089,7 +1183,9 @@ fn enc_encode(ch: &mut Chooser, ctx: &mut Ctx, obj: &mut dyn DynEncoder, st: &mu
     let recovery = match probed {
         Ok(v) => v,
         Err(why) => {
-            let props: &[&'static str] = if why.contains(" bytes, expected") { &["C12", "C04"] } else { &["C12"] };
+            // a recovery shard handed out under the wrong index (or another shard under that index) is also not the shard
+            // the code defines for that index (C02), whichever accessor or iterator adaptor delivered it
+            let props: &[&'static str] = if why.contains(" bytes, expected") { &["C12", "C04"] } else if why.contains("disagree") || why.contains("differs") { &["C12", "C02"] } else { &["C12"] };
             return ctx.viol(props, "result-contract", format!("enc-result/{}", why.split_whitespace().next().unwrap_or("")), format!("{}{:?} EncoderResult: {why}", st.kind.name(), st.cfg), true);
         }
     };
